@@ -11,7 +11,7 @@ from math import prod
 ID = "C15"
 TECHNIQUE = "bounded-exhaustive enumeration of (shape,start,end) on the real routine vs. DP reference for the minimum slab cover"
 RULE = (
-    "all shapes of order 0..5 with dims in 1..4 and numel <= N (N=16 quick, 48 thorough) plus (7,14),(3,5,7),(2,3,4,5)[thorough]; "
+    "all shapes of order 0..5 with dims in 1..4 and numel <= N (N=24 quick, 48 thorough) plus (7,14),(3,5,7),(2,3,4,5)[thorough]; "
     "all 0<=start<=end<=numel; both copies (FSDP, HSDP). state = (shape,start,end); non-trivial = result has >= 2 pieces"
 )
 ASSUMPTIONS = [
@@ -23,11 +23,11 @@ EXHAUSTIVE = True
 
 
 def bounds(tier):
-    return {"max_numel": 16 if tier == "quick" else 48, "orders": "0..5", "dims": "1..4"}
+    return {"max_numel": 24 if tier == "quick" else 48, "orders": "0..5", "dims": "1..4"}
 
 
 def shapes_for(tier):
-    N = 16 if tier == "quick" else 48
+    N = 24 if tier == "quick" else 48
     out = []
     for order in range(0, 6):
         for s in itertools.product(range(1, 5), repeat=order):
